@@ -5,6 +5,7 @@
 // exact), binary128 reference with a forward error bound on arbitrary finite floats.
 #include "common.hpp"
 #include "cov.hpp"
+#include "probe_backend.hpp"
 
 #include <cmath>
 
@@ -123,6 +124,44 @@ struct Aff {
     {
         return A::scaling(t[Is]...);
     }
+    // the factories take any argument types convertible to R ("must be convertible to transformation matrix
+    // elements"): argument lists of mixed types, each argument holding the same small integer
+    template <size_t I>
+    static auto mixed_a(R v)
+    {
+        if constexpr (I % 4 == 0) {
+            return int(v);
+        } else if constexpr (I % 4 == 1) {
+            return unsigned(v);
+        } else if constexpr (I % 4 == 2) {
+            return double(v);
+        } else {
+            return long(v);
+        }
+    }
+    template <size_t I>
+    static auto mixed_b(R v)
+    {
+        if constexpr (I % 4 == 0) {
+            return float(v);
+        } else if constexpr (I % 4 == 1) {
+            return short(v);
+        } else if constexpr (I % 4 == 2) {
+            return (unsigned long)(v);
+        } else {
+            return (signed char)(v);
+        }
+    }
+    template <size_t... Is>
+    static A translation_mixed(const R * t, bool b, std::index_sequence<Is...>)
+    {
+        return b ? A::translation(mixed_b<Is>(t[Is])...) : A::translation(mixed_a<Is>(t[Is])...);
+    }
+    template <size_t... Is>
+    static A scaling_mixed(const R * t, bool b, std::index_sequence<Is...>)
+    {
+        return b ? A::scaling(mixed_b<Is>(t[Is])...) : A::scaling(mixed_a<Is>(t[Is])...);
+    }
     static Verdict cmp(const char * what, size_t i, R got, q128 exact, q128 mag, ld factor, bool ex)
     {
         ld g = ld(got), e = ld(exact);
@@ -171,6 +210,28 @@ struct Aff {
             for (size_t i = 0; i < N; ++i) {
                 if (auto b = cmp("affine layer over identity", i, got[i], y[i], sy[i], N + 2, c.exact)) {
                     return b;
+                }
+            }
+            // ---- 1b. the layer over a backend whose values have the other precision: the coordinate handed down is
+            // still A1.x + t computed in the coordinate scalar (observed with the probe backend)
+            {
+                using O = std::conditional_t<sizeof(R) == 4, double, float>;
+                using P = probe<cv::vector_d<R, N>, cv::vector_d<O, 2>>;
+                using BP = cb::affine<P>;
+                probe_stats st;
+                covfie::field<BP> fp(pack(A(lib[0]), typename P::configuration_t{&st}));
+                typename covfie::field<BP>::view_t vp(fp);
+                (void)vp.at(cx);
+                if (st.queries != 1) {
+                    return "affine layer over a probe backend queried it " + std::to_string(st.queries) + " times for one lookup";
+                }
+                for (size_t i = 0; i < N; ++i) {
+                    if (auto b = cmp("affine layer over a backend with values of the other precision: queried coordinate", i, R(st.last[i]), y[i], sy[i], N + 2, c.exact)) {
+                        return b;
+                    }
+                    if (!(ld(R(st.last[i])) == st.last[i])) {
+                        return std::string("probe received a coordinate that is not a value of the coordinate scalar type");
+                    }
                 }
             }
             // ---- 2. algebra: A1 * x
@@ -251,6 +312,34 @@ struct Aff {
                 q128 p = x[i] * q128(tv[i]);
                 if (auto b = cmp("scaling(s) * x", i, sxv(i), p, qabs(p), 1, c.exact)) {
                     return b;
+                }
+            }
+            // mixed argument types (small-integer domain; unsigned positions need a non-negative value)
+            if (c.exact && N >= 2) {
+                for (bool b : {false, true}) {
+                    bool ok = true;
+                    for (size_t i = 0; i < N; ++i) {
+                        bool uns = b ? i % 4 == 2 : i % 4 == 1;
+                        ok = ok && tv[i] == R((long)tv[i]) && std::fabs(ld(tv[i])) <= 100 && !(uns && tv[i] < 0);
+                    }
+                    if (!ok) {
+                        continue;
+                    }
+                    A Tm = translation_mixed(tv, b, std::make_index_sequence<N>{});
+                    A Sm = scaling_mixed(tv, b, std::make_index_sequence<N>{});
+                    label("factories called with arguments of mixed types");
+                    for (size_t i = 0; i < N; ++i) {
+                        for (size_t j = 0; j <= N; ++j) {
+                            R wt = j == N ? tv[i] : (i == j ? R(1) : R(0));
+                            R ws = j == N ? R(0) : (i == j ? tv[i] : R(0));
+                            if (!(Tm(i, j) == wt)) {
+                                return "translation(...) with arguments of mixed types (" + std::string(b ? "float, short, unsigned long, signed char" : "int, unsigned, double, long") + "): entry (" + std::to_string(i) + "," + std::to_string(j) + ") is " + ld_str(Tm(i, j)) + ", expected " + ld_str(wt);
+                            }
+                            if (!(Sm(i, j) == ws)) {
+                                return "scaling(...) with arguments of mixed types (" + std::string(b ? "float, short, unsigned long, signed char" : "int, unsigned, double, long") + "): entry (" + std::to_string(i) + "," + std::to_string(j) + ") is " + ld_str(Sm(i, j)) + ", expected " + ld_str(ws);
+                            }
+                        }
+                    }
                 }
             }
             A I(covfie::algebra::matrix<N, N + 1, R>::identity());
